@@ -110,6 +110,8 @@ type c20Call struct {
 	key    *KeyPair
 	bare   cose.Signer // when set, the built-in signer is handed to go-cose unwrapped (it then also implements DigestSigner)
 	hsmN   int         // calls seen by the HSM stub underneath
+	hsm    *HSM        // the device stub, when the key sits behind one
+	signed cose.Signer // the go-cose signer object built over it
 	spy    *SpySigner
 	ent    *Entropy
 	isErr  func() bool // the call (if made) fails
@@ -141,6 +143,7 @@ func (r *Run) c20Signer(t *tape.Tape, kind string, log *[]string, tag string) *c
 			r.Skip("NewSigner over the HSM stub failed: " + err.Error())
 		}
 		c.spy = &SpySigner{Inner: inner, Alg: inner.Algorithm(), Log: log, Tag: tag}
+		c.hsm, c.signed = hsm, inner
 		if t.Bool(1, 2, "c20.bare") {
 			// no wrapper: go-cose sees its own signer type (the fault sits
 			// underneath, in the crypto.Signer)
@@ -330,6 +333,28 @@ func scenarioC20(r *Run) {
 func c20Sign(r *Run, t *tape.Tape, e c20Entry, n int, vec []int) {
 	var log []string
 	calls := make([]*c20Call, n)
+	// liveness once the fault is gone: the device recovers, and the very same
+	// go-cose signer object is asked again - it answers (a signer that stays
+	// wedged after one device failure never returns; the watchdog reports it)
+	defer func() {
+		if r.Viol != nil {
+			return
+		}
+		for i, c := range calls {
+			if c == nil || c.hsm == nil || c.signed == nil || c.kind == "ok" {
+				continue
+			}
+			c.hsm.Mode = ""
+			var sig []byte
+			var err error
+			r.Lib(func() { sig, err = c.signed.Sign(NewEntropy(21), []byte("after the device recovered")) })
+			r.Fired("device.recovers")
+			r.Check()
+			if err != nil || len(sig) == 0 {
+				r.Fail("signer-unusable-after-device-recovered/"+c.kind, "signer %d (key %s): the device failed once (%s) and works again, but the same Signer object now returns (%d bytes, %v)", i, c.key.Name, c.kind, len(sig), err)
+			}
+		}
+	}()
 	names := make([]string, n)
 	for i := 0; i < n; i++ {
 		names[i] = c20SignKinds[vec[i]]
